@@ -364,12 +364,9 @@ def check_marker_bounds(out, facts):
 
 def check_btree(out, facts):
     cfg = facts.cfg
-    c = facts.consts
-    b = (c.get('btree_utils::B') or {}).get('val')
-    cap = (c.get('btree_utils::CAPACITY') or {}).get('val')
-    mn = (c.get('btree_utils::MIN_LEN_AFTER_SPLIT') or {}).get('val')
-    out.ob('R12.6', 'btree constants [%s]' % cfg, b == 6 and cap == 2 * 6 - 1 and mn == 5,
-           'B-tree node constants are B=%s CAPACITY=%s MIN_LEN_AFTER_SPLIT=%s (std: 6, 11, 5)' % (b, cap, mn), 'src/btree_utils.rs')
+    # the numbers of the standard library's node layout (B = 6): 2*B - 1 = 11 pairs per node, B - 1 = 5 after a split,
+    # 2*B = 12 edges; the estimate is compared with them by evaluation, whatever constants it is written with
+    b, cap, mn = 6, 11, 5
     f = facts.by_path.get('btree_utils::mem_size_of_btree')
     if not f:
         out.fail('R12.6', 'mem_size_of_btree [%s]' % cfg, 'function not found', '-')
@@ -382,13 +379,20 @@ def check_btree(out, facts):
     # one leaf node while n / ((CAPACITY + MIN_LEN_AFTER_SPLIT) * 2 / 3) is 0, and that many internal nodes (leaf + 2*B
     # edges) otherwise, saturating
     import re as _re
-    per_node = (cap + mn) * 2 // 3 if isinstance(cap, int) and isinstance(mn, int) else None
+    per_node = (cap + mn) * 2 // 3
+    # the node types whose sizes enter the estimate
+    tys = []
+    contains((v, tuple(e[1] for e in sym.walk(t) if e[0] == 'RET' and len(e) > 1 and isinstance(e[1], tuple))),
+             lambda x: (tys.append(str(x[4][0])) or False) if (isinstance(x, tuple) and len(x) > 4 and x[0] == 'call' and x[1] == 'size_of' and x[4]) else False)
+    leafs = sorted({y for y in tys if _re.search(r'\bT\b', y)})
+    edges_ = sorted({y for y in tys if not _re.search(r'\bT\b', y)})
+    out.ob('R12.6', 'btree node types [%s]' % cfg, leafs == ['(usize, u16, u16, [T; %d])' % cap] and edges_ in ([], ['[usize; %d]' % (2 * b)]),
+           'node sizes are taken of %s and %s (std: a leaf is (usize, u16, u16, [T; 11]), an internal node adds [usize; 12] — the latter is '
+           'also decided numerically below)' % (leafs, edges_), f['loc'])
     why = []
     n_eval = 0
     if sym.has_opaque(t):
         why.append('unrecognised construct: ' + sym.has_opaque(t)[0][1])
-    elif not per_node:
-        why.append('constants not found')
     else:
         for L in (24, 1000, 1 << 40):
             for n in (0, 1, per_node - 1, per_node, per_node + 1, 2 * per_node - 1, 2 * per_node, 3 * per_node, 99, 100, 101, 4096, 2 ** 32 - 1):
